@@ -21,8 +21,12 @@ import (
 	"io"
 	"math/big"
 
+	"github.com/tuneinsight/lattigo/v6/core/rlwe"
 	"github.com/tuneinsight/lattigo/v6/utils/buffer"
 )
+
+// SECTAB control: 120 bits of modulus at LogN=12 (table row: 109)
+var BadParamsN12QP109 = rlwe.ParametersLiteral{LogN: 12, LogQ: []int{60, 60}}
 
 type Thing struct {
 	A    uint64
